@@ -81,9 +81,13 @@ def _classes(w):
     }
 
 
-def run_trace(w, ops, classes):
+def run_trace(w, ops, classes, defer=False):
     """ops: list of (ups, la, aa, ens, cls) ; cls None = generic Stream"""
     nodes = []
+    if defer:
+        # the caller's current loop, asked for only after construction so that asking does not create it
+        class _Cur:
+            pass
     ev = []
     bg_seen = False
     for (ups, la, aa, ens, cls) in ops:
@@ -106,6 +110,8 @@ def run_trace(w, ops, classes):
         called = w.bg_calls > c0
         if s is not None:
             nodes.append(s)
+        if defer:
+            w.CUR = IOLoop.current()
         ev.append({"ups": list(ups), "la": la, "aa": aa, "ens": bool(ens), "cls": cls or "Stream", "raised": raised,
                    "loop": [w.loop_id(n.loop) for n in nodes], "mode": [MODE_ID[n.asynchronous] for n in nodes],
                    "bgNew": bool(called and not bg_seen)})
@@ -118,6 +124,17 @@ def run_trace(w, ops, classes):
         except Exception:
             pass
     return ev
+
+
+def run_trace_ctx(w, ops, classes):
+    """like run_trace, but CUR is the calling context's current loop (evaluated after the calls)"""
+    saved = w.CUR
+    w.CUR = object()
+    try:
+        nodes_ev = run_trace(w, ops, classes, defer=True)
+    finally:
+        w.CUR = saved
+    return nodes_ev
 
 
 def choices(n):
@@ -160,6 +177,33 @@ def main():
                 else:
                     traces.append([((), la, aa, True, cls)])
     out = []
+    # caller contexts: constructor calls made from a fresh thread that has no event loop yet, and from inside a
+    # running loop; the "current loop" is whatever IOLoop.current() is for that caller
+    import threading
+    ctx_ops = [o + (None,) for o in choices(0)] + [((), la, aa, True, cls) for cls, (nu, _) in classes.items() if not nu
+                                                    for la in (0,) for aa in (0, 1, 2)]
+    for o1 in ctx_ops:
+        box = {}
+
+        def in_thread():
+            try:
+                ev = run_trace_ctx(w, [o1], classes)
+                box["ev"] = ev
+            except Exception as e:      # noqa
+                box["err"] = repr(e)
+        t = threading.Thread(target=in_thread)
+        t.start()
+        t.join(20)
+        if "ev" in box:
+            out.append(box["ev"])
+
+        async def inside():
+            return run_trace_ctx(w, [o1], classes)
+        lp = asyncio.new_event_loop()
+        try:
+            out.append(lp.run_until_complete(inside()))
+        finally:
+            asyncio.set_event_loop(w.cur_aio)
     for ops in traces:
         if ops[-1] == ("?",):
             # decide the third op once we know how many nodes exist
